@@ -11,6 +11,7 @@ use mdk_sqlite_storage::MdkSqliteStorage;
 use mdk_storage_traits::groups::types::GroupExporterSecret;
 use mdk_storage_traits::groups::GroupStorage;
 use mdk_storage_traits::messages::MessageStorage;
+use mdk_storage_traits::welcomes::WelcomeStorage;
 use mdk_storage_traits::{MdkStorageProvider, Secret};
 use openmls_traits::storage::StorageProvider;
 use serde::{Deserialize, Serialize};
@@ -43,6 +44,16 @@ pub enum COp {
     RSnaps { g: u8 },
     RMlsState { g: u8 },
     RLeaves { g: u8 },
+    Welcome { id: u8, state: u8 },
+    ProcWelcome { w: u8, failed: bool },
+    Retry { w: u8 },
+    InvProc { g: u8, epoch: u8 },
+    SnapPrune { all: bool },
+    RWelcome { id: u8 },
+    RPendingWelcomes,
+    RProc { w: u8 },
+    RFailedForRetry { g: u8 },
+    RByNostr { n: u8 },
 }
 
 impl COp {
@@ -75,6 +86,16 @@ pub fn capply<S: MdkStorageProvider>(s: &S, op: &COp) -> String {
         COp::RSnaps { g } => r(s.list_group_snapshots(&gid(*g)), |v| set_s(v.into_iter().map(|x| x.0).collect())),
         COp::RMlsState { g } => r(s.group_state::<Blob, _>(&omls_gid(*g)), |x| format!("{x:?}")),
         COp::RLeaves { g } => r(s.own_leaf_nodes::<_, Blob>(&omls_gid(*g)), |v| list_s(v.iter().map(|x| format!("{x:?}")).collect())),
+        COp::Welcome { id, state } => storex::apply(s, &storex::Op::Welcome { id: *id, state: *state }),
+        COp::ProcWelcome { w, failed } => storex::apply(s, &storex::Op::ProcWelcome { w: *w, failed: *failed }),
+        COp::Retry { w } => storex::apply(s, &storex::Op::Retry { w: *w }),
+        COp::InvProc { g, epoch } => storex::apply(s, &storex::Op::InvProc { g: *g, epoch: *epoch }),
+        COp::SnapPrune { all } => storex::apply(s, &storex::Op::SnapPrune { all: *all }),
+        COp::RWelcome { id } => r(s.find_welcome_by_event_id(&storex::eid(0x50, *id)), |x| x.map(|x| format!("{}:{}", x.id.to_hex()[60..].to_string(), x.state.as_str())).unwrap_or("none".into())),
+        COp::RPendingWelcomes => r(s.pending_welcomes(None), |v| list_s(v.iter().map(|x| x.id.to_hex()[60..].to_string()).collect())),
+        COp::RProc { w } => r(s.find_processed_message_by_event_id(&storex::eid(0x40, *w)), |x| x.map(|x| storex::proc_s(&x)).unwrap_or("none".into())),
+        COp::RFailedForRetry { g } => r(s.find_failed_messages_for_retry(&gid(*g)), |v| set_s(v.iter().map(|i| i.to_hex()[60..].to_string()).collect())),
+        COp::RByNostr { n } => r(s.find_group_by_nostr_group_id(&[0x10 + *n; 32]), |g| g.map(|g| group_s(&g)).unwrap_or("none".into())),
     }
 }
 
@@ -88,6 +109,7 @@ fn base_state<S: MdkStorageProvider>(s: &S) {
         COp::Relays { g: 1, set: 1 },
         COp::Secret { g: 0, epoch: 1, val: 1 },
         COp::Msg { g: 0, id: 0, state: 0 },
+        COp::Proc { w: 1, state: 1 },
         COp::MlsState { g: 0, val: 1 },
         COp::MlsLeaf { g: 0, val: 1 },
         COp::MlsState { g: 1, val: 1 },
@@ -337,6 +359,22 @@ pub fn alphabet(theme: &str) -> Vec<COp> {
             COp::RMlsState { g: 0 },
             COp::RGroup { g: 0 },
         ],
+        "welcomes" => vec![
+            COp::Welcome { id: 0, state: 0 },
+            COp::Welcome { id: 0, state: 1 },
+            COp::Welcome { id: 1, state: 0 },
+            COp::ProcWelcome { w: 0, failed: false },
+            COp::Proc { w: 1, state: 1 },
+            COp::Retry { w: 1 },
+            COp::InvProc { g: 0, epoch: 0 },
+            COp::SnapPrune { all: true },
+            COp::SaveGroup { g: 0, name: 1, epoch: 2 },
+            COp::RWelcome { id: 0 },
+            COp::RPendingWelcomes,
+            COp::RProc { w: 1 },
+            COp::RFailedForRetry { g: 0 },
+            COp::RByNostr { n: 0 },
+        ],
         _ => vec![
             COp::Msg { g: 0, id: 1, state: 0 },
             COp::Msg { g: 0, id: 0, state: 2 },
@@ -386,16 +424,20 @@ pub fn program_sets(alpha: &[COp], shape: &[usize]) -> Vec<Vec<Vec<COp>>> {
         sets = nx;
     }
     // a set in which no thread writes cannot distinguish orders
-    let is_read = |o: &COp| matches!(o, COp::RGroup { .. } | COp::RAll | COp::RRelays { .. } | COp::RSecret { .. } | COp::RMsgs { .. } | COp::RMsg { .. } | COp::RSnaps { .. } | COp::RMlsState { .. } | COp::RLeaves { .. });
+    let is_read = |o: &COp| matches!(o, COp::RGroup { .. } | COp::RAll | COp::RRelays { .. } | COp::RSecret { .. } | COp::RMsgs { .. } | COp::RMsg { .. } | COp::RSnaps { .. } | COp::RMlsState { .. } | COp::RLeaves { .. } | COp::RWelcome { .. } | COp::RPendingWelcomes | COp::RProc { .. } | COp::RFailedForRetry { .. } | COp::RByNostr { .. });
     sets.retain(|s| s.iter().filter(|p| p.iter().any(|o| !is_read(o))).count() >= 1 && s.iter().flatten().filter(|o| !is_read(o)).count() >= 1);
     sets
 }
 
-fn run_backend<B: Backend>(mk: &(dyn Fn() -> B + Sync), rep: &mut Report, themes: &[&str], shapes: &[Vec<usize>], bound: Option<usize>, max_schedules: u64) {
+fn run_backend<B: Backend>(mk: &(dyn Fn() -> B + Sync), rep: &mut Report, themes: &[&str], shapes: &[Vec<usize>], bound: Option<usize>, max_schedules: u64, thorough: bool) {
     let mut work: Vec<(String, Vec<Vec<COp>>)> = Vec::new();
     for th in themes {
         let a = alphabet(th);
         for sh in shapes {
+            // the fourth alphabet is the largest: its 2+1 programs are left to the thorough tier
+            if *th == "welcomes" && !thorough && sh.len() == 2 && sh[0] == 2 {
+                continue;
+            }
             for set in program_sets(&a, sh) {
                 work.push((format!("{th}/{sh:?}"), set));
             }
@@ -463,15 +505,15 @@ fn run_backend<B: Backend>(mk: &(dyn Fn() -> B + Sync), rep: &mut Report, themes
 
 pub fn check_c19(rep: &mut Report, thorough: bool) {
     sched::install();
-    let themes = ["groups", "snapshots", "messages"];
+    let themes = ["groups", "snapshots", "messages", "welcomes"];
     let shapes: Vec<Vec<usize>> = if thorough { vec![vec![1, 1], vec![2, 1], vec![2, 2], vec![1, 1, 1], vec![2, 1, 1], vec![3, 1]] } else { vec![vec![1, 1], vec![2, 1], vec![1, 1, 1]] };
     let bound = None;
     if std::env::var("VERIF_OPENS_ONLY").is_ok() {
         crate::c13::concurrent_opens(rep, thorough);
         return;
     }
-    run_backend(&|| { let mut m = Mem(MdkMemoryStorage::default()); m.reset(); m }, rep, &themes, &shapes, bound, 20_000);
-    run_backend(&|| { let mut m = Sql(storex::fresh_sqlite()); m.reset(); m }, rep, &themes, &shapes, bound, 20_000);
+    run_backend(&|| { let mut m = Mem(MdkMemoryStorage::default()); m.reset(); m }, rep, &themes, &shapes, bound, 20_000, thorough);
+    run_backend(&|| { let mut m = Sql(storex::fresh_sqlite()); m.reset(); m }, rep, &themes, &shapes, bound, 20_000, thorough);
     // first opens of one database path from several threads (yield points in the SQLite constructors)
     crate::c13::concurrent_opens(rep, thorough);
     rep.sample(json!({"programs": [["SnapCreate{g:0,name:1}"], ["MlsState{g:0,val:2}", "SaveGroup{g:0,name:1,epoch:2}"]], "schedule_points": "every lock acquisition of the backend", "oracle": "call results + full read surface + (rollback to snap1, full read surface) equal those of a sequential order respecting program and real-time order"}));
